@@ -279,6 +279,21 @@ def check(case, obs):
         t = call(out.transform_fxn, d, ch)
         obs.claim('transform_fxn', not raised(t) and bool(np.allclose(np.asarray(t)[:, 2 + c], out.fitting['std_crv'][c](col), rtol=1e-12)),
                   'transform_fxn does not apply the fitted curve to its channel')
+        # ... also on a sample whose columns are laid out differently from the bead file's (channel given by name)
+        if isinstance(ch, str):
+            rev = d[:, list(range(d.shape[1]))[::-1]]
+            t2 = call(out.transform_fxn, rev, ch)
+            pos = d.shape[1] - 1 - (2 + c)
+            obs.claim('transform_fxn', not raised(t2) and bool(np.allclose(np.asarray(t2)[:, pos], out.fitting['std_crv'][c](col), rtol=1e-12))
+                      and all(np.array_equal(np.asarray(t2)[:, j], np.asarray(rev)[:, j]) for j in range(d.shape[1]) if j != pos),
+                      lambda: 'transform_fxn applied to a sample with reversed column order (channel %r by name): %r' % (ch, t2 if raised(t2) else 'wrong columns converted'))
+            if all(isinstance(x, str) for x in chans):
+                # a selection holding just the calibrated channels, last one first
+                sub = d[:, list(chans)[::-1]]
+                t3 = call(out.transform_fxn, sub, ch)
+                p3 = list(chans)[::-1].index(ch)
+                obs.claim('transform_fxn', not raised(t3) and bool(np.allclose(np.asarray(t3)[:, p3], out.fitting['std_crv'][c](col), rtol=1e-12)),
+                          lambda: 'transform_fxn applied to the selection %r (channel %r by name): %r' % (list(chans)[::-1], ch, t3 if raised(t3) else 'not converted'))
     t_first = [np.asarray(out.fitting['std_crv'][c](Xd[:, 2 + c])).copy() for c in range(nch)]
     # ---- reproducible for a fixed seed
     out2 = run(d, chans, mef_values)
